@@ -470,6 +470,10 @@ def calculate_1d_frequencies(
         frequencies[xbin] = weights_array[start:stop].sum()
         errors2[xbin] = (weights_array[start:stop] ** 2).sum()
 
+    if bins.shape[0] == 0 and not data_array.size:
+        # Nothing entered into a histogram that has no bins (yet) => nothing missed
+        underflow = overflow = weights_array.sum()
+
     # Underflow and overflow don't make sense for unconsecutive binning.
     if not _bin_utils.is_consecutive(bins):
         underflow = np.nan
